@@ -197,8 +197,13 @@ package font
 
 // <first> <last> [ t0 t1 ... ]: the k-th non-empty target maps code first+k, as long as that code is <= last
 //@ func (*CMap) parseBfRangeArray
-//@   property C07
-//@   flags nosafety
+//@   property C07, C02
+//@   loop 0:
+//@     invariant 0 <= startIdx && startIdx <= len(preBracket)
+//@     decreases len(preBracket) - startIdx
+//@   loop 1:
+//@     invariant 0 <= startIdx && startIdx <= len(arrayContent)
+//@     decreases len(arrayContent) - startIdx
 //@   loop 2:
 //@     step next_code: currentCode == (len(hex) == 0 ? prev(currentCode) : uint32(prev(currentCode) + 1))
 //@     step target_maps_current_code: len(hex) > 0 && !hexToUnicode$1(hex) && prev(currentCode) <= endCode ==> has(cm.charMappings, prev(currentCode)) && sameseq(cm.charMappings[prev(currentCode)], hexToUnicode(hex))
